@@ -98,6 +98,16 @@ def main():
                     elif spec[0] == 'garbage-gz':
                         open(q, 'wb').write(b'this is not gzip data')
             start = dirs[c['start']]
+            if c.get('via_link'):
+                # the start directory is given through a symbolic link that lives elsewhere
+                serial += 1
+                ld = os.path.join(base, 'links')
+                os.makedirs(ld, exist_ok=True)
+                lp = os.path.join(ld, 'L%d' % (serial % 40))
+                if os.path.lexists(lp):
+                    os.unlink(lp)
+                os.symlink(start, lp)
+                start = lp
             try:
                 kw = {'allow_xdev': c['xdev'], 'allow_compressed': c['compr']}
                 if c.get('defaults'):
@@ -109,6 +119,15 @@ def main():
                 r = find_top_level_manifest(start, **kw)
                 if r is None:
                     res = ['ok', None]
+                elif c.get('via_link'):
+                    # which physical directory does the returned path name?
+                    res = ['weird', r]
+                    for j in range(0, c['start'] + 1):
+                        try:
+                            if os.path.lexists(r) and os.path.samefile(os.path.dirname(r) or '.', dirs[j]):
+                                res = ['ok', [c['start'] - j, os.path.basename(r)]]
+                        except OSError:
+                            pass
                 else:
                     rel = os.path.relpath(r, start).split('/')
                     res = ['ok', [sum(1 for x in rel if x == '..'), rel[-1]]]
